@@ -335,6 +335,8 @@ class Translator:
                 callee = self.methods[f]
                 if callee.body_coq is None and f in ALGORITHMIC:
                     raise Unsupported(m.where, e, f'call of the algorithmic method {f}')
+                if callee.body_coq is None and f in getattr(self, 'skipped_private', {}):
+                    raise Unsupported(m.where, e, f'call of the private helper {f}, which is outside the subset ({self.skipped_private[f]})')
                 if f not in m.calls:
                     m.calls.append(f)
                 if len(e.args) > len(callee.params):
@@ -631,9 +633,20 @@ def translate(repo_src, extra_path):
     if ast.unparse(strip_annotations(bs)) != BUILD_SUBST_REF:
         raise Unsupported('propositional._build_subst', bs, 'helper differs from the modelled text (Lib/Term.v build_subst)')
 
-    translated = [n for n in order if n not in ALGORITHMIC]
-    for n in translated:
-        methods[n].parse_signature()
+    # Private methods (leading underscore) advertise nothing: they are helpers.  A private method that is outside
+    # the subset is skipped (it can only matter if a translated method calls it: that call then aborts).
+    skipped_private = {}
+    translated = []
+    for n in order:
+        if n in ALGORITHMIC:
+            continue
+        try:
+            methods[n].parse_signature()
+            translated.append(n)
+        except Unsupported as e:
+            if not n.startswith('_'):
+                raise
+            skipped_private[n] = str(e)
 
     # class axioms
     class_ax_name = {}
@@ -664,10 +677,24 @@ def translate(repo_src, extra_path):
     for n in translated:
         m = methods[n]
         m.body_coq = ''   # mark as translatable for callers
-    for n in translated:
-        m = methods[n]
-        m.calls = []
-        m.body_coq = tr.translate_body(m)
+    tr.skipped_private = skipped_private
+    changed = True
+    while changed:          # a private helper that fails takes the private helpers that call it with it
+        changed = False
+        for n in list(translated):
+            m = methods[n]
+            m.calls = []
+            m.uses_gen = False
+            m.inst_params = set()
+            try:
+                m.body_coq = tr.translate_body(m)
+            except Unsupported as e:
+                if not n.startswith('_'):
+                    raise
+                skipped_private[n] = str(e)
+                m.body_coq = None
+                translated.remove(n)
+                changed = True
 
     # dependency order (stable topological sort; recursion is outside the subset)
     done, out_order, visiting = set(), [], set()
@@ -705,7 +732,10 @@ def translate(repo_src, extra_path):
             m.schema = None
             m.spec_kind = 'extra' if n in extra_stmts else None
         except S.SchemaMismatch as e:
-            raise Unsupported(m.where, m.node.body[0], str(e))
+            if not n.startswith('_'):
+                raise Unsupported(m.where, m.node.body[0], str(e))
+            m.schema = None          # a private helper advertises nothing
+            m.spec_kind = 'extra' if n in extra_stmts else None
 
     # ---- emit ----------------------------------------------------------------------------------
     HEAD = ('(** GENERATED by translators/proplib.py from the current source of\n'
@@ -770,8 +800,11 @@ def translate(repo_src, extra_path):
             o.append(f'#[global] Hint Resolve {n}_spec_u : pl.')
             spec_names.append(f'{n}_spec')
         else:
+            if not n.startswith('_'):
+                raise Unsupported(m.where, m.node, 'public rule without an advertised schema: its docstring is not a schema '
+                                  f'and Lib/Extra.v has no {n}_stmt')
             unspecified.append(n)
-            o.append(f'(* no schema: docstring is not a schema and Lib/Extra.v has no {n}_stmt *)')
+            o.append(f'(* private helper without a schema of its own: inlined ([Hint Unfold]) in the proofs of its callers *)')
             o.append(f'#[global] Hint Unfold {n} : plunf.')
         # wf (g: is Generalization allowed when the stored conclusion is re-checked)
         qs = ' '.join(f'({v(pn)} : {CTY[pt]})' for pn, pt, _ in m.params)
@@ -874,9 +907,10 @@ def translate(repo_src, extra_path):
     per_file = {}
     for cls, rel, _ in SOURCES:
         names = [n for n in order if methods[n].cls == cls]
-        per_file[rel] = dict(cls=cls, methods=len(names), translated=len([n for n in names if n not in ALGORITHMIC]),
-                             proved=len([n for n in names if n not in ALGORITHMIC and methods[n].spec_kind is not None]),
-                             algorithmic=[n for n in names if n in ALGORITHMIC])
+        per_file[rel] = dict(cls=cls, methods=len(names), translated=len([n for n in names if n in out_order]),
+                             proved=len([n for n in names if n in out_order and methods[n].spec_kind is not None]),
+                             algorithmic=[n for n in names if n in ALGORITHMIC],
+                             private_helpers_skipped=[n for n in names if n in skipped_private])
     for cls, rel in NO_METHOD_FILES:
         try:
             t2 = ast.parse(open(os.path.join(repo_src, 'proof_generation', rel)).read())
@@ -892,7 +926,7 @@ def translate(repo_src, extra_path):
                excluded_sha={n: methods[n].sha for n in order if n in ALGORITHMIC},
                unspecified=unspecified,
                axioms={cls: dict(name=nm, count=k) for cls, nm, _, k in ax_defs},
-               n_methods_total=len(order), per_file=per_file, symbols=tr.symbols)
+               n_methods_total=len(order), per_file=per_file, skipped_private=skipped_private, symbols=tr.symbols)
     return text, idx
 
 
